@@ -743,6 +743,14 @@ pub fn c09(n: usize, start: usize, len: usize, end: End) -> Vec<Case> {
                     }
                 }
             }
+            if end == End::Forget {
+                // formatting the drain (also into a sink that gives up or panics half way) before it is leaked
+                for s in [vec![Step::Dbg], vec![Step::Next, Step::Dbg], vec![Step::NextBack, Step::Dbg], vec![Step::Next, Step::NextBack, Step::Dbg]] {
+                    let mut ops = vec![Op::Drain(canonical(a, b), s, End::Forget)];
+                    ops.extend(tail(a + 2 * b));
+                    out.push(base(n, start, len, ops));
+                }
+            }
             if end == End::Drop {
                 out.push(base(n, start, len, vec![Op::Drain(canonical(a, b), vec![Step::Dbg, Step::Next, Step::Dbg, Step::NextBack, Step::Dbg], End::Drop)]));
                 // the adaptor-style consumers (default implementations today): nth, nth_back, count,
